@@ -68,7 +68,7 @@ check(list(c.array_slots) == ['error', 'mask', 'kernel'] and c.array_slots['mask
 check(set(c10.companion_slots('SourceCatalog', 'base', 0)) == {'error', 'mask', 'background', 'convolved_data'}, 'SourceCatalog companions')
 check(set(c10.companion_slots('find_peaks', 'base', 0)) == {'error', 'mask', 'threshold', 'footprint'}, 'find_peaks companions')
 check(set(c10.companion_slots('calc_total_error', 'base', 0)) == {'bkg_error', 'effective_gain'}, 'calc_total_error companions')
-for name in ('centroid_1dg', 'detect_threshold', 'calc_total_error', 'StarFinder'):
+for name in ('centroid_1dg', 'detect_threshold', 'calc_total_error'):
     combos = c10.companion_combos(R.RECIPES[name], 'quick', 0)
     check(len(combos) >= 8 and len(set(combos)) == len(combos), f'{name}: companion combos {len(combos)}')
     for mf, rep, cond, geom in combos:
